@@ -245,10 +245,10 @@ impl AccountKey {
         ensures r matches Ok(k) ==> k.key.key_type == key_type && k.signature_algorithm == signature_algorithm { unimplemented!() }
 }
 impl Account {
-    // storage::save: the account file is rewritten (C02 / persistence in unit storage)
+    // account/storage.rs::save (verified in unit acctstore): on success the account file holds this very account
     #[verifier::external_body]
     pub fn save(&self, Tracked(w): Tracked<&mut World>) -> (r: Result<(), Error>)
-        ensures final(w).saves == old(w).saves + 1, final(w).requests == old(w).requests, final(w).saved == Some(*self),
+        ensures final(w).saves <= old(w).saves + 1, r is Ok ==> final(w).saves == old(w).saves + 1 && final(w).saved == Some(*self), final(w).requests == old(w).requests,
             final(w).ca_key == old(w).ca_key, final(w).ca_contacts == old(w).ca_contacts, final(w).ca_eab == old(w).ca_eab { unimplemented!() }
 }
 #[verifier::external_body]
